@@ -440,8 +440,11 @@ def main(mod, argv=None):
 
     if a.dump_logs:
         with open(a.dump_logs, "w") as f:
-            for r in results:
-                f.write("%d %s\n" % (r["seed"], r.get("digest", "-")))
+            import hashlib as _hl
+            for r in sorted(results, key=lambda r: r["seed"]):
+                # one line per run: schedule digest + digest of everything the run observed (stats, probes, violation)
+                obs = json.dumps([sorted((r.get("stats") or {}).items()), sorted((r.get("probes") or {}).items()), r.get("violation"), r.get("nontrivial")], sort_keys=True, default=str)
+                f.write("%d %s %s\n" % (r["seed"], r.get("digest", "-"), _hl.sha256(obs.encode()).hexdigest()[:24]))
 
     if not a.no_evidence:
         write_evidence(mod, a, tier, results, harness, dead, viol, reported, known_lines, wall_search, time.time() - t_start)
